@@ -5,32 +5,38 @@ import WireP.Lemmas.FrontProofs
 Model: `WireV.checkField`, `WireV.allFields`, `WireV.structArgs`, `WireV.structProviderArgs`,
 `WireV.fieldsOfArgs` (parse.go: checkField, allFields, processStructProvider, processFieldsOf).
 A field argument is either a string literal denoting `s` (`.str s`) or anything else (`.other`);
-the struct's fields are given in declaration order with their `wire:"-"` tag (`prevented`). -/
+the struct's fields are given in declaration order with their `wire:"-"` tag (`prevented`).
+A blank field (name exactly `"_"`) is never selected: neither by `"*"` nor by naming it. -/
 namespace WireP.C12
 open WireV
 
 /-! ## `checkField` -/
 
-/-- field names are matched exactly as written -/
+/-- field names are matched exactly as written; a blank field is never matched -/
 theorem checkField_exact {fs : List FieldDecl} {s : String} {f : FieldDecl} :
-    checkField fs (.str s) = .ok f → f ∈ fs ∧ f.name = s ∧ f.prevented = false :=
+    checkField fs (.str s) = .ok f → f ∈ fs ∧ f.name = s ∧ f.prevented = false ∧ f.name ≠ "_" :=
   WireP.FrontProofs.checkField_exact
 
 theorem checkField_unknown {fs : List FieldDecl} {s : String} :
-    (∀ f ∈ fs, f.name ≠ s) → checkField fs (.str s) = .error (.notField s) :=
+    (s = "_" ∨ ∀ f ∈ fs, f.name ≠ s) → checkField fs (.str s) = .error (.notField s) :=
   WireP.FrontProofs.checkField_unknown
 
 theorem checkField_unknown_iff {fs : List FieldDecl} {s : String} :
-    checkField fs (.str s) = .error (.notField s) ↔ ∀ f ∈ fs, f.name ≠ s :=
+    checkField fs (.str s) = .error (.notField s) ↔ (s = "_" ∨ ∀ f ∈ fs, f.name ≠ s) :=
   WireP.FrontProofs.checkField_unknown_iff
 
+/-- the blank name `"_"` is "not a field", whatever the struct declares -/
+theorem checkField_blank (fs : List FieldDecl) : checkField fs (.str "_") = .error (.notField "_") :=
+  WireP.FrontProofs.checkField_blank fs
+
 theorem checkField_prevented {fs : List FieldDecl} {s : String} {f : FieldDecl} :
-    (fs.map (·.name)).Nodup → f ∈ fs → f.name = s → f.prevented = true →
+    (fs.map (·.name)).Nodup → f ∈ fs → f.name = s → s ≠ "_" → f.prevented = true →
       checkField fs (.str s) = .error (.prevented s) :=
   WireP.FrontProofs.checkField_prevented
 
 theorem checkField_found {fs : List FieldDecl} {f : FieldDecl} :
-    (fs.map (·.name)).Nodup → f ∈ fs → f.prevented = false → checkField fs (.str f.name) = .ok f :=
+    (fs.map (·.name)).Nodup → f ∈ fs → f.name ≠ "_" → f.prevented = false →
+      checkField fs (.str f.name) = .ok f :=
   WireP.FrontProofs.checkField_found
 
 /-- anything that is not a string literal is rejected -/
@@ -45,21 +51,36 @@ theorem checkField_case_sensitive :
 
 /-! ## `wire.Struct` -/
 
-/-- `"*"`: all fields not tagged `wire:"-"`, in declaration order -/
+/-- `"*"`: all fields that are neither tagged `wire:"-"` nor blank, in declaration order -/
 theorem structArgs_star (fs : List FieldDecl) :
-    structArgs fs [.str "*"] = .ok (fs.filter (fun f => !f.prevented)) :=
+    structArgs fs [.str "*"] = .ok (fs.filter (fun f => !f.prevented && f.name != "_")) :=
   WireP.FrontProofs.structArgs_star fs
+
+/-- `"*"` selects only declared fields that are not prevented and not blank -/
+theorem structArgs_star_sound {fs sel : List FieldDecl} :
+    structArgs fs [.str "*"] = .ok sel → ∀ f ∈ sel, f ∈ fs ∧ f.prevented = false ∧ f.name ≠ "_" :=
+  WireP.FrontProofs.structArgs_star_sound
+
+/-- `"*"` selects every declared field that is not prevented and not blank -/
+theorem structArgs_star_complete {fs sel : List FieldDecl} :
+    structArgs fs [.str "*"] = .ok sel → ∀ f ∈ fs, f.prevented = false → f.name ≠ "_" → f ∈ sel :=
+  WireP.FrontProofs.structArgs_star_complete
+
+/-- `"*"` keeps the declaration order -/
+theorem structArgs_star_order {fs sel : List FieldDecl} :
+    structArgs fs [.str "*"] = .ok sel → sel.Sublist fs :=
+  WireP.FrontProofs.structArgs_star_order
 
 /-- otherwise: exactly the named fields, in written order -/
 theorem structArgs_named {fs : List FieldDecl} {args : List FieldArg} {sel : List FieldDecl} :
     allFields args = false → structArgs fs args = .ok sel →
       sel.length = args.length ∧ ∀ (i : Nat) a f, args[i]? = some a → sel[i]? = some f →
-        a = FieldArg.str f.name ∧ f ∈ fs ∧ f.prevented = false :=
+        a = FieldArg.str f.name ∧ f ∈ fs ∧ f.prevented = false ∧ f.name ≠ "_" :=
   WireP.FrontProofs.structArgs_named
 
 theorem structArgs_rejects {fs : List FieldDecl} {args : List FieldArg} {a : FieldArg} :
     allFields args = false → a ∈ args →
-      (a = .other ∨ ∃ s, a = .str s ∧ ((∀ f ∈ fs, f.name ≠ s) ∨
+      (a = .other ∨ ∃ s, a = .str s ∧ (s = "_" ∨ (∀ f ∈ fs, f.name ≠ s) ∨
         ∃ f ∈ fs, f.name = s ∧ f.prevented ∧ (fs.map (·.name)).Nodup)) →
       ∃ e, structArgs fs args = .error e :=
   WireP.FrontProofs.structArgs_rejects
@@ -88,7 +109,7 @@ theorem structProviderArgs_error_passes {fs : List FieldDecl} {args : List Field
 theorem fieldsOfArgs_spec {fs : List FieldDecl} {args : List FieldArg} {sel : List FieldDecl} :
     args.length ≤ fs.length → fieldsOfArgs fs args = .ok sel →
       sel.length = args.length ∧ ∀ (i : Nat) a f, args[i]? = some a → sel[i]? = some f →
-        a = FieldArg.str f.name ∧ f ∈ fs ∧ f.prevented = false :=
+        a = FieldArg.str f.name ∧ f ∈ fs ∧ f.prevented = false ∧ f.name ≠ "_" :=
   WireP.FrontProofs.fieldsOfArgs_spec
 
 theorem fieldsOfArgs_tooMany {fs : List FieldDecl} {args : List FieldArg} :
@@ -97,7 +118,7 @@ theorem fieldsOfArgs_tooMany {fs : List FieldDecl} {args : List FieldArg} :
 
 theorem fieldsOfArgs_rejects {fs : List FieldDecl} {args : List FieldArg} {a : FieldArg} :
     a ∈ args →
-      (a = .other ∨ ∃ s, a = .str s ∧ ((∀ f ∈ fs, f.name ≠ s) ∨
+      (a = .other ∨ ∃ s, a = .str s ∧ (s = "_" ∨ (∀ f ∈ fs, f.name ≠ s) ∨
         ∃ f ∈ fs, f.name = s ∧ f.prevented ∧ (fs.map (·.name)).Nodup)) →
       ∃ e, fieldsOfArgs fs args = .error e :=
   WireP.FrontProofs.fieldsOfArgs_rejects
@@ -128,5 +149,22 @@ example : structArgs exFs [.str "*", .str "A"] = .error (.notField "*") := by de
 example : fieldsOfArgs exFs [.str "D", .str "A"] = .ok [⟨"D", 1, false⟩, ⟨"A", 1, false⟩] := by decide
 example : fieldsOfArgs exFs [.str "A", .str "A", .str "A", .str "A", .str "A"] = .error .tooMany := by decide
 example : fieldsOfArgs exFs [.str "*"] = .error (.notField "*") := by decide
+
+/-- a struct with a blank field, a field whose name merely starts with `_`, and a prevented field -/
+def exBlank : List FieldDecl := [⟨"A", 1, false⟩, ⟨"_", 2, false⟩, ⟨"_x", 3, false⟩, ⟨"b", 4, true⟩]
+
+example : (exBlank.map (·.name)).Nodup := by decide
+example : structArgs exBlank [.str "*"] = .ok [⟨"A", 1, false⟩, ⟨"_x", 3, false⟩] := by decide
+example : structProviderArgs exBlank [.str "*"] = .ok [⟨"A", 1, false⟩, ⟨"_x", 3, false⟩] := by decide
+example : checkField exBlank (.str "_") = .error (.notField "_") := by decide
+example : checkField exBlank (.str "_x") = .ok ⟨"_x", 3, false⟩ := by decide
+example : checkField exBlank (.str "b") = .error (.prevented "b") := by decide
+example : structArgs exBlank [.str "A", .str "_"] = .error (.notField "_") := by decide
+example : structArgs exBlank [.str "_x", .str "A"] = .ok [⟨"_x", 3, false⟩, ⟨"A", 1, false⟩] := by decide
+example : fieldsOfArgs exBlank [.str "_"] = .error (.notField "_") := by decide
+example : fieldsOfArgs exBlank [.str "_x"] = .ok [⟨"_x", 3, false⟩] := by decide
+/-- two blank fields of one type do not trip the duplicate-type test under `"*"` -/
+example : structProviderArgs [⟨"_", 1, false⟩, ⟨"A", 1, false⟩, ⟨"_", 1, false⟩] [.str "*"] =
+    .ok [⟨"A", 1, false⟩] := by decide
 
 end WireP.C12
